@@ -344,6 +344,7 @@ type ParseResult struct {
 	StepsExceeded bool     // the reference itself hit its step bound: inconclusive
 	Recoveries    int      // number of successful recoveries
 	Scans         int      // Scan calls made
+	MaxDepth      int      // deepest parse stack reached
 	Touched       map[[2]int]bool
 }
 
@@ -392,6 +393,9 @@ func (l *LR1) Parse(toks []int, o ParseOpts) ParseResult {
 			return res
 		}
 		top := states[len(states)-1]
+		if len(states) > res.MaxDepth {
+			res.MaxDepth = len(states)
+		}
 		la := tokAt(scanIdx)
 		res.Touched[[2]int{top, la}] = true
 		act := l.Resolved[top][la]
